@@ -53,7 +53,13 @@ def cases(tier):
             for dec in ("coupled", "decoupled"):
                 for fg in ("f0", "f1"):
                     cs.append(f"group_step/{graft}/{alias}/{dec}/{fg}")
-    cs.append("step/flags")
+    from checks import plist
+    cs += plist.shampoo_cases(tier)
+    for a in "01":
+        for b in "01":
+            for c in "01":
+                for d in "01":
+                    cs.append(f"step/flags/g{a}{b}n{c}{d}")
     return cs
 
 
@@ -186,6 +192,9 @@ def replay_file(doc):
         rows = sm.native_group_step(rp["hv"], rp["blocks"], rp["graft"], rp["alias"])
         bad = sm.native_mismatches(rows)
         return bool(bad), "; ".join(bad) or "post-state equals the documented rule"
+    if rp.get("kind") == "plist":
+        from checks import plist
+        return plist.replay_plist(rp)
     if rp.get("kind") != "group_step" or not m:
         return False, "no native replayer for this obligation family"
     hv = {k: m.get(v) for k, v in _H.items()}
@@ -208,7 +217,10 @@ def replay_file(doc):
 def run_case(case, tier, seed):
     if case.startswith("group_step/"):
         return _group_step_case(case, tier)
-    if case == "step/flags":
+    if case.startswith("plist/"):
+        from checks import plist
+        return plist.run_list_case(case, tier, PROP)
+    if case.startswith("step/flags"):
         from checks import stepflags
         return stepflags.run(case, tier)
     raise KeyError(case)
